@@ -229,7 +229,9 @@ def variants_of(defs, seed, tier="quick", only=None, probes=True):
         k = seed % len(T)
         names = ["plain", T[k], T[(k + len(T) // 2) % len(T)], "mixed"]
     has_catch = any(f.get("catch") for f in defs["flib"].values())
-    if not only and probes and not has_catch:
+    # (not on programs with handlers or built-in-named globals: there the defect shows as an
+    #  arbitrary value instead of a NameError and could not be told from other defects)
+    if not only and probes and not has_catch and not defs["deco"]["renamed"]:
         # probes of the two known transformer defects (see export_templates.PROBES)
         if seed % 4 == 0:
             names.append("kf_paren")
